@@ -8,7 +8,7 @@
 From Coq Require Import String.
 From Emmet Require Import lib.Base lib.StyleLib gen.GenCssSnippets model.CssTokenizer model.CssParser
      model.Score model.Color model.CssSnippets model.CssResolve model.CssFormat run.StyleShow
-     proofs.StyleSweep proofs.StyleMatchProofs proofs.StyleReachProofs.
+     proofs.StyleSweep proofs.StyleMatchProofs proofs.StyleReachProofs proofs.StyleKeywordProofs.
 Local Open Scope N_scope.
 
 (* ---- every key of the built-in table reaches its own snippet.
@@ -64,6 +64,34 @@ Theorem C06_keywords_resolve :
       expand_with cfg sn (key ++ c_dash :: v) = Ok (kw_line cfg prop tok).
 Proof. exact keywords_resolve. Qed.
 Print Assumptions C06_keywords_resolve.
+
+(* ---- ANY letter case (all 2^n spellings, not only the five of the sweep), for ALL tables: when the name selects
+   a property snippet whose keywords are distinct up to letter case, a listed keyword [kw] typed after `:` in any mix
+   of upper and lower case [v] (letters only: [word_ok]) resolves to the listed entry [tok] *)
+Theorem C06_keyword_any_case :
+  forall cfg sn key key' prop value kws deps kw tok v,
+    word_ok key -> word_ok v -> str_eqb key gradient_name = false -> c_context cfg = None ->
+    find_best_match sn_key key sn (c_min_score cfg) true = Some (SnProp key' prop value kws deps) ->
+    get_unmatched_part key key' 0 = [] ->
+    In kw (map fst kws) -> assoc_str kw kws = Some tok -> lower v = lower kw ->
+    (forall x, In x (map fst kws) -> lower x = lower kw -> x = kw) ->
+    expand_with cfg sn (key ++ c_colon :: v) = Ok (kw_line cfg prop tok).
+Proof. exact keyword_any_case. Qed.
+Print Assumptions C06_keyword_any_case.
+
+(* ... and for the regenerated built-in table its side conditions hold for every key (complete sweep) *)
+Theorem C06_builtin_keywords_any_case :
+  forall cfg0 cfg sn,
+    cfg_plain = Some cfg0 -> c_min_score cfg = c_min_score cfg0 -> c_context cfg = None ->
+    convert_snippets css_snippets = Ok sn ->
+    forall k key' prop value kws deps kw tok v,
+      In k table_keys -> word_ok k -> str_eqb k gradient_name = false ->
+      find_best_match sn_key k sn (c_min_score cfg) true = Some (SnProp key' prop value kws deps) ->
+      assoc_str kw kws = Some tok ->
+      word_ok v -> lower v = lower kw ->
+      expand_with cfg sn (k ++ c_colon :: v) = Ok (kw_line cfg prop tok).
+Proof. exact builtin_keywords_any_case. Qed.
+Print Assumptions C06_builtin_keywords_any_case.
 
 (* FULL statement would drop [plain_keyword] down to "dash-free"; it is REFUTED for the keywords that
    contain a digit (scale3d, translate3d): known finding c06:keyword-with-digit *)
